@@ -177,6 +177,15 @@ class ValidRange(Case):
                     v["hi"] = hi
                 yield v
         if k == "float":
+            # unsigned / narrow integer data with bounds that the type cannot hold (fractions, negatives)
+            for dt in ("uint8", "uint16", "int8"):
+                for lo, hi in ((2.5, 9.5), (-1, 10), (0, 2.5), (-3.5, 300.5)):
+                    v = {"n": 5, "x": [1, 2, 3, 9, 10], "dtype": dt, "keep": 1}
+                    if self.params["lo"]:
+                        v["lo"] = lo
+                    if self.params["hi"]:
+                        v["hi"] = hi
+                    yield v
             for xs in ([_f32(0.1), _f32(0.7), _f32(0.4)], [_f32(0.1)], [_f32(0.7), None]):
                 v = {"n": len(xs), "x": list(xs), "dtype": "float32", "keep": 1}
                 if self.params["lo"]:
